@@ -317,9 +317,16 @@ def run(ctx):
                       {"coq_case": np_terms[failing[0]], "meaning": "CNp max_no_progress [iterate unchanged flags per iteration] exited_with_NoProgress"})
 
     # whole-loop ties: verified models (Panoc.v, ZeroFpr.v) vs the real solvers on whole runs
-    from vf.props import PANOC, ZEROFPR
-    PANOC.attach(ctx)
-    ZEROFPR.attach(ctx)
+    from vf.props import PANOC, ZEROFPR, PANTR
+    def on_run(cs, o):
+        if cs.rq.prob.l1:
+            return []      # the documented criterion formulas are stated for the projection onto C (no l1 term)
+        crit = cs.rq.param("xcrit") or cs.rq.param("solver.stop_crit") or "ApproxKKT"
+        scenario = "nan" if cs.rq.nan_from_eval >= 0 else "plain"
+        return run_oracle(ctx, scenario, crit, cs.rq, o)
+    PANOC.attach(ctx, extra_oracle=on_run)
+    ZEROFPR.attach(ctx, extra_oracle=on_run)
+    PANTR.attach(ctx, extra_oracle=on_run)
 
 def np_case(rq, o):
     """PANOC / ZeroFPR / FISTA runs that ended for a reason ranked below NoProgress or with NoProgress itself"""
